@@ -11,7 +11,8 @@
 // tols:   comma separated hex bit patterns of the ToleranceXY arguments (first is always absent = "-")
 // obs:    per tolerance entry and per ignoreOrder in {0,1}: ee(G,H) ee(H,G) ee(G,G) ee(H,H) as 0/1/p
 // wkbeq:  1 when AsBinary of G and H are equal after writing -0 as +0
-// expect: by construction: P1/P0 (no options must be true/false), I1/I0 (IgnoreOrder), T0 (false under
+// expect: by construction: P1/P0 (no options must be true/false), I1/I0 (IgnoreOrder), T1 (true under
+//         every listed tolerance), T0 (false under
 //         every listed tolerance, with and without IgnoreOrder), ? unknown
 package main
 
@@ -405,6 +406,64 @@ func isClosedAll(l *N) bool {
 	return true
 }
 
+// buildRaw builds like Node.Build, except that points are made with geom.NewPoint from a
+// Coordinates value holding ALL four entries of C[0] - also the ones the coordinate type does not
+// use ("stale" Z/M fields, which no encoding shows).
+func buildRaw(n *N) geom.Geometry {
+	rawPoint := func(p *N) geom.Point {
+		if !p.Full {
+			return geom.NewEmptyPoint(p.CT)
+		}
+		v := p.C[0]
+		return geom.NewPoint(geom.Coordinates{XY: geom.XY{X: v[0], Y: v[1]}, Z: v[2], M: v[3], Type: p.CT})
+	}
+	switch n.Kind {
+	case lib.KPoint:
+		return rawPoint(n).AsGeometry()
+	case lib.KMPoint:
+		if len(n.Kids) == 0 {
+			return n.Build()
+		}
+		ps := make([]geom.Point, len(n.Kids))
+		for i, k := range n.Kids {
+			ps[i] = rawPoint(k)
+		}
+		return geom.NewMultiPoint(ps).AsGeometry()
+	case lib.KColl:
+		if len(n.Kids) == 0 {
+			return n.Build()
+		}
+		gs := make([]geom.Geometry, len(n.Kids))
+		for i, k := range n.Kids {
+			gs[i] = buildRaw(k)
+		}
+		return geom.NewGeometryCollection(gs).AsGeometry()
+	}
+	return n.Build()
+}
+
+var garbage = []float64{7, -3.5, 1e300, 0x1p-1074, math.NaN(), math.Inf(1), math.Inf(-1), math.Copysign(0, -1), 1}
+
+// staleFill writes garbage into the entries of every point vertex that the coordinate type does
+// not use; returns how many entries were written.
+func staleFill(r *lib.Rng, root *N, prob int) int {
+	cnt := 0
+	walk(root, func(m *N) {
+		if m.Kind != lib.KPoint || !m.Full {
+			return
+		}
+		if !m.CT.Is3D() && r.Chance(prob, 4) {
+			m.C[0][2] = garbage[r.Intn(len(garbage))]
+			cnt++
+		}
+		if !m.CT.IsMeasured() && r.Chance(prob, 4) {
+			m.C[0][3] = garbage[r.Intn(len(garbage))]
+			cnt++
+		}
+	})
+	return cnt
+}
+
 // ---- observation
 
 func ee(g, h geom.Geometry, tol *float64, io bool) (res byte) {
@@ -534,8 +593,11 @@ func main() {
 	classes := map[string]int{}
 	expects := map[string]int{}
 	ringsSeen, ringLines := 0, 0
+	var emitG func(id string, class string, g, h geom.Geometry, gn, hn *N, tols []float64, expect string)
 	emit := func(id string, class string, gn, hn *N, tols []float64, expect string) {
-		g, h := gn.Build(), hn.Build()
+		emitG(id, class, gn.Build(), hn.Build(), gn, hn, tols, expect)
+	}
+	emitG = func(id string, class string, g, h geom.Geometry, gn, hn *N, tols []float64, expect string) {
 		var ob strings.Builder
 		seen := map[string]bool{}
 		oracle(&ob, seen, g)
@@ -605,7 +667,55 @@ func main() {
 		scale := magnitudes[r.Intn(len(magnitudes))]
 		var tols []float64
 		switch i % 20 {
-		case 0, 1: // identical copy of an arbitrary structured geometry (all finite float classes)
+		case 1: // points made by NewPoint(Coordinates{...}) with garbage in the Z/M fields the type does not use
+			sct := geom.CoordinatesType(r.Intn(3)) // XY, XYZ, XYM have an unused field
+			var g *N
+			switch r.Intn(5) {
+			case 0:
+				g = genPt(r, sct, 1)
+				g.Full = true
+				if g.C == nil {
+					g.C = [][4]float64{{1, 2, 0, 0}}
+				}
+			case 1, 2:
+				g = &N{Kind: lib.KMPoint, CT: sct}
+				for c := r.Range(1, 4); c > 0; c-- {
+					g.Kids = append(g.Kids, genPt(r, sct, 1))
+				}
+			case 3:
+				g = &N{Kind: lib.KColl, CT: sct, Kids: []*N{genPt(r, sct, 1), genOpenLine(r, sct, 1),
+					{Kind: lib.KMPoint, CT: sct, Kids: []*N{genPt(r, sct, 1), genPt(r, sct, 1)}}}}
+			default:
+				g = &N{Kind: lib.KColl, CT: sct, Kids: []*N{{Kind: lib.KColl, CT: sct, Kids: []*N{genPt(r, sct, 1), genPt(r, sct, 1)}}, genPt(r, sct, 1)}}
+			}
+			h := clone(g)
+			n1 := staleFill(r, g, 3)
+			if r.Bool() {
+				n1 += staleFill(r, h, 2) // different garbage on the other side
+			}
+			expect, class := "P1I1T1", "stale_unused_fields"
+			if n1 == 0 {
+				class = "same"
+			}
+			switch r.Intn(4) {
+			case 0: // a used ordinate differs as well
+				if sl := slots(h); len(sl) > 0 {
+					t := sl[r.Intn(len(sl))]
+					t.n.C[t.i][t.j] = ulpStep(r, t.n.C[t.i][t.j]+1)
+					expect, class = "P0I0", "stale_and_used_differs"
+				}
+			case 1: // member order
+				for _, c := range collections(h) {
+					shuffle(r, c.Kids)
+				}
+				expect = "I1"
+			}
+			var tols []float64
+			if expect == "P1I1T1" || r.Bool() {
+				tols = []float64{0, 0.5, -2}[:r.Range(1, 3)]
+			}
+			emitG(id, class, buildRaw(g), buildRaw(h), g, h, tols, expect)
+		case 0: // identical copy of an arbitrary structured geometry (all finite float classes)
 			cfg := lib.StructCfg{MaxDepth: 3, MaxKids: 4, MaxVerts: 5}
 			g := cfg.Gen(r, &st)
 			emit(id, "same", g, clone(g), nil, "P1I1")
